@@ -143,6 +143,16 @@ fn gen_number(rng: &mut Rng, column: usize, geographic: bool) -> String {
 }
 
 fn gen_line(rng: &mut Rng, geographic: bool, max_cols: usize) -> String {
+    // a very long line now and then: thousands of blanks around the columns, or a
+    // trailing comment of several kilobytes (longer than any I/O buffer in the way)
+    if rng.chance(0.004) {
+        let pad = " ".repeat(*rng.pick(&[300usize, 5000, 9000, 70_000]));
+        return match rng.below(3) {
+            0 => format!("{}55{}12{}", pad, pad, pad),
+            1 => format!("55 12 # {}", "x".repeat(pad.len())),
+            _ => format!("#{}", pad),
+        };
+    }
     match rng.weighted(&[70, 6, 4, 4, 4, 3, 9]) {
         1 => String::new(),
         2 => (*rng.pick(&["   ", "\t", " \t "])).to_string(),
